@@ -142,6 +142,30 @@ CHECKS['C11'] = dict(
     design_ref='DESIGN.md section 6 C11', note='TLC; real OS schedules (not controlled); 64 KiB pipe assumed when scaling sizes; '
     'thread-only servlet trees are covered for start/stop by the C02/C04/C06 conformance runs (every run ends with Exit, leftover = 0)')
 
+PROCNOTE = ('TLC; real processes, pipes and signals under the OS schedule (phase-gated kills make the crash point deterministic); a hang is a '
+            '20 s bound where < 0.5 s is expected, confirmed twice alone in a fresh process; Thread flavour also under detsched')
+CHECKS['C12'] = dict(
+    technique='TLA+ spec ProcOutcome (child phases, OS kill at every phase, parent collector with exit-code reaping, accessors as '
+              'environment actions in any order; Thread flavour) checked by TLC for agreement of all accessors with one abstract '
+              'outcome and bounded accessors; four as-found flags refuted; the finite scenario space executed on real Process / '
+              'Thread objects with phase-gated signals and validated by TLC trace validation',
+    text='TLC explores every ending kind (return / raise / SystemExit None, 0, n, str) x kill signal x delivery phase x order of '
+         'join, result, exception, done, exitcode, wait, as_completed: invariants Agreement, ExitCodeRight, FutureRight; liveness '
+         'BoundedAccessors.  The same product is run on real objects (boot / run / between-messages / final phase reached by parking '
+         'hooks and a Finalize), each accessor under a bound, observations validated by TLC; Thread start/run/accessor interleavings '
+         'additionally run under detsched.',
+    design_ref='DESIGN.md section 6 C12', note=PROCNOTE)
+CHECKS['C20'] = dict(
+    technique='TLA+ spec ChildLog (child queue buffer, feeder threads of child and parent sharing one bounded pipe under the write '
+              'lock, parent logger thread, collector) checked by TLC: handled is a prefix of emitted, no loss when the logger stops, '
+              'child always exits, join returns; as-found flag refuted three ways; real children (Process, ProcessServlet worker, '
+              'ProcessPoolExecutor worker) with record volumes scaled around the pipe validated by TLC trace validation',
+    text='TLC checks HandledPrefix, NoLoss, PipeBound and the liveness properties ChildExits / JoinReturns / LoggerStops for up to 5 '
+         'records, size classes and pipe capacities 2-4 units.  Real children log 0-300 records of 50 B - 100 kB (up to ~5x the pipe, '
+         'F_GETPIPE_SZ read at run time) with a fast or a 2 ms/record parent handler, ending by return / raise / sys.exit; what a '
+         'handler on the parent root logger received, join() and the exit code are recorded and validated by TLC.',
+    design_ref='DESIGN.md section 6 C20', note=PROCNOTE)
+
 ALL = ['C%02d' % i for i in range(1, 21)]
 
 
